@@ -46,7 +46,7 @@ PLANS = {
         quick=[("shuffle", "rep,hash", ["-plies", "120", "-rawep"], 9, 5000), ("play", "rep,hash", ["-plies", "80", "-rawep"], 4, 5000),
                ("ucirep", "", ["-plies", "60"], 3, 200)],
         thorough=[("shuffle", "rep,hash", ["-plies", "300", "-rawep"], 9, 50000), ("play", "rep,hash", ["-plies", "120", "-rawep"], 4, 50000),
-                  ("ucirep", "", ["-plies", "200"], 3, 1200)]),
+                  ("ucirep", "", ["-plies", "120"], 3, 400)]),
 }
 
 REPLAY_OBS = {"C01": "legal", "C02": "fen", "C03": "hash,hashes", "C04": "hash", "C05": "gen", "C09": "status",
